@@ -337,6 +337,80 @@ def gen_indexless_case(rng):
     return {"cfg": cfg, "ops": ops}
 
 
+def gen_autoindex_case(rng):
+    """auto-index writers (cesium generates the index series of every frame) written in bursts
+    while a consumer reads only afterwards; streamers subscribed to the index, the data, both"""
+    chans = [{"k": k, "kind": "v"} for k in VIRT] + [{"k": IDX, "kind": "i"}, {"k": DATA, "kind": "d", "idx": IDX}]
+    allkeys = VIRT + [IDX, DATA]
+    out_buf = rng.choice([4, 8])
+    cfg = {"buf": rng.choice([3, 8, 1000]), "timeout_ms": 5000, "out_buf": out_buf, "chans": chans}
+    ops = []
+    writers = {}
+
+    def open_auto(w):
+        vs = rand_subset(rng, VIRT, 0)
+        cs = [DATA] + vs if rng.random() < 0.7 else vs + [DATA]
+        au = [rng.choice([255, 255, 200, 100])] if rng.random() < 0.6 else [rng.choice(AUTHS) for _ in cs]
+        ops.append({"op": "open_writer", "w": w, "mode": rng.choice(["ps", "ps", "so"]), "chans": cs, "auths": au, "auto": True})
+        writers[w] = cs
+    open_auto(1)
+    ns = 0
+
+    def open_s():
+        nonlocal ns
+        ns += 1
+        ks = rng.choice([[IDX], [IDX, DATA], list(allkeys), [DATA], rand_subset(rng, allkeys, 1)])
+        o = {"op": "open_streamer", "s": ns, "keys": list(ks)}
+        prev = [x for x in ops if x["op"] == "open_streamer"]
+        if prev and rng.random() < 0.3:
+            j = rng.choice(prev)
+            o["keys"], o["share"] = list(j["keys"]), j["s"]
+        ops.append(o)
+    open_s()
+    if rng.random() < 0.7:
+        open_s()
+    if rng.random() < 0.35:
+        open_auto(2)
+    elif rng.random() < 0.4:
+        ops.append({"op": "open_writer", "w": 2, "mode": "so", "chans": rand_subset(rng, VIRT, 1), "auths": [rng.choice(AUTHS)]})
+        writers[2] = ops[-1]["chans"]
+
+    def write():
+        w = rng.choice(sorted(writers))
+        cs = writers[w]
+        ks = rand_subset(rng, [k for k in cs if k != DATA], 0)
+        if DATA in cs and rng.random() < 0.85:
+            ks = ks + [DATA] if rng.random() < 0.5 else [DATA] + ks
+        if not ks:
+            ks = [cs[0]]
+        ops.append({"op": "write", "w": w, "keys": ks})
+    for _ in range(rng.randrange(2, 5)):
+        x = rng.random()
+        if x < 0.45:
+            # burst: a consumer stops reading, several frames are written, then it reads
+            s = rng.randrange(1, ns + 1)
+            ops.append({"op": "pause", "s": s})
+            for _ in range(rng.randrange(2, out_buf)):
+                write()
+            ops.append({"op": "resume", "s": s})
+        elif x < 0.8:
+            for _ in range(rng.randrange(2, 7)):
+                write()
+        elif x < 0.9:
+            ops.append({"op": "resub", "s": rng.randrange(1, ns + 1), "keys": rng.choice([[IDX], [IDX, DATA], list(allkeys), rand_subset(rng, allkeys, 0)])})
+        elif ns < 3:
+            open_s()
+        if rng.random() < 0.5:
+            ops.append({"op": "sync"})
+        if rng.random() < 0.1 and len(writers) > 1:
+            w = rng.choice(sorted(writers))
+            ops.append({"op": rng.choice(["close_writer", "set_auth"]), "w": w, "auth": rng.choice(AUTHS)})
+            if ops[-1]["op"] == "close_writer":
+                del writers[w]
+    ops.append({"op": "sync"})
+    return {"cfg": cfg, "ops": ops}
+
+
 def flood_case(buf=2):
     """known finding: writes after DB.Close fill the dead relay inlet and block"""
     ops = [{"op": "open_writer", "w": 1, "mode": "so", "chans": [1], "auths": [255]},
@@ -354,6 +428,8 @@ def gen_cases(rng, tier, n):
             out.append(gen_stall_case(rng))
         elif x < 0.14:
             out.append(gen_indexless_case(rng))
+        elif x < 0.22:
+            out.append(gen_autoindex_case(rng))
         else:
             out.append(gen_case(rng, tier))
     return out
@@ -418,10 +494,47 @@ def full_script(case, r):
     return [o for o, _ in pairs], [x for _, x in pairs]
 
 
+def expand_auto(case, ops):
+    """An auto-index writer (open_writer with auto=true) is, for the model, a writer that opened
+    the index of its data channels too (cesium opens it implicitly, with the highest authority of
+    the data channels that reference it) and whose frames carry the index series (cesium appends
+    the generated series at the end of every frame that has data of the group but no index)."""
+    idx_of = {c["k"]: c["idx"] for c in case["cfg"]["chans"] if c["kind"] == "d"}
+    autos = {}
+    out = []
+
+    def stamp(w, ks):
+        ks = list(ks or [])
+        for i in autos.get(w, []):
+            if i not in ks and any(idx_of.get(k) == i for k in ks):
+                ks.append(i)
+        return ks
+    for o in ops:
+        o = dict(o)
+        if o["op"] == "open_writer" and o.get("auto"):
+            cs, au = list(o.get("chans") or []), list(o.get("auths") or [])
+            implicit = []
+            for k in cs:
+                i = idx_of.get(k)
+                if i is not None and i not in cs and i not in implicit:
+                    implicit.append(i)
+            if len(au) == len(cs) and len(au) != 1:
+                au = au + [max(a for k, a in zip(cs, au) if idx_of.get(k) == i) for i in implicit]
+            o["chans"], o["auths"] = cs + implicit, au
+            autos.setdefault(o["w"], implicit)
+        elif o["op"] == "write" and o.get("w") in autos:
+            o["keys"] = stamp(o["w"], o.get("keys"))
+        elif o["op"] == "bg_writes" and o.get("w") in autos:
+            o["kss"] = [stamp(o["w"], ks) for ks in (o.get("kss") or [])]
+        out.append(o)
+    return out
+
+
 def to_coq(case, r):
     cfg = case["cfg"]
     chans = clist([cpair(cN(c["k"]), c_kind(c)) for c in cfg["chans"]])
     ops, outs = full_script(case, r)
+    ops = expand_auto(case, ops)
     script = clist([cpair(c_op(o), c_out(o, x)) for o, x in zip(ops, outs)])
     obs = clist([cpair(cN(s["s"]), clist([cpair(cN(i["w"]), cN(i["seq"]), c_keys(i["keys"])) for i in s["items"]]))
                  for s in (r.get("streams") or [])])
@@ -499,6 +612,8 @@ def histogram(case, r):
                                   ("authorized" if x.get("a") else "partly-unauthorized")))
         if o["op"] == "open_streamer" and o.get("share"):
             ks.append("streamer_opened_from_shared_key_slice")
+        if o["op"] == "open_writer" and o.get("auto"):
+            ks.append("auto_index_writer")
         if o["op"] == "open_writer":
             ks.append("mode=" + (o.get("mode") or "ps"))
             if x.get("e"):
@@ -557,7 +672,9 @@ RULE = ("seeded sequential driver scripts of 10-34 operations (real relay / stre
         "followed by further writes and operations); relay capacity from {1,2,3,8,1000}, streamer outlet buffer from {0,1,4}. "
         "Two further flavours: 4% 'double stall' scripts (three streamers, two consumers stalled at the same time next to an "
         "always-ready one while frames are written; timeout 1 s) and 10% 'index-less writer' scripts (an index-only writer plus a "
-        "writer that opened the data channel without its index and whose frames carry the index key or other foreign keys). "
+        "writer that opened the data channel without its index and whose frames carry the index key or other foreign keys), "
+        "and 8% 'auto-index' scripts (writers with AutoIndex: cesium generates the index series of every frame; frames written in "
+        "bursts while a consumer reads only afterwards; streamers subscribed to the index only / data only / both). "
         "Non-trivial = frames of >=2 writers received, some streamer received >=3 frames, some write had keys excluded as "
         "unauthorized, and a re-subscribe / streamer close / pause / DB close took effect; distinct by hash.")
 TRUSTED = ["hook cesium/export_verif_c20.go (WithVerifStreamingConfig: relay capacity and slow-consumer timeout, otherwise unexported)",
@@ -566,6 +683,9 @@ TRUSTED = ["hook cesium/export_verif_c20.go (WithVerifStreamingConfig: relay cap
            "streamers and checked unmodified once all their streamers exited; barriers by probe "
            "frames on two dedicated virtual channels (probe key alternates with every re-subscribe so a received probe shows the "
            "active subscription generation) + a sentinel streamer; a 20 s watchdog on every call",
+           "content checks in the harness beyond the tags: every received frame is kept uncopied and re-read at the end (must read as "
+           "when received); an auto-generated index series is the same for every streamer, unique per write, increasing per writer, "
+           "and a sample of the persisted index channel; an all-channel streamer of the harness attributes index-only frames",
            "the monitor computes 'authorized' from the script with the control rule of C05 (highest authority, earliest open; "
            "virtual channels shared, unary channels exclusive)"]
 ASSUMES = ["a consumer that is never paused is 'always ready': it takes a frame within the slow-consumer timeout (>= 1.5 s in every case)",
